@@ -114,8 +114,7 @@ def generate(tier, seed):
         allf = fields + EXTRA_FIELDS.get(v, [])
         for f in allf:
             lines.append("    let x_%s = vk::i64();" % f)
-        if v in ("UnlinkId", "UnlinkIdAck"):
-            lines.append("    vk::assume(x_id >= 0);")
+        # unlink ids range over all of u64 (x_id as u64): ids above i64::MAX are part of the quantifier
         if allf:
             ctor = "ControlMessage::%s { %s }" % (v, ", ".join(
                 ("%s: x_%s as u64" % (f, f)) if f == "id" else ("%s: i(x_%s)" % (f, f)) for f in allf))
@@ -128,6 +127,8 @@ def generate(tier, seed):
         lines.append("    let mut m = %s;" % ctor)
         if pins:
             lines.append(pins)
+        if v in ("UnlinkId", "UnlinkIdAck"):
+            lines.append("    unlink_id_value_kept(&m, x_id);")
         lines.append("    serialises_as::<%d>(m, %d, [%s]);" % (k, tag, ", ".join("x_%s" % f for f in fields)))
         src.append(fn(n, "\n".join(lines)))
         hs.append(H(n, "%s serialises (to_term and into_term) as {%d, %s}: protocol tag, arity %d, field order" % (v, tag, ", ".join(fields), k + 1)))
